@@ -37,6 +37,28 @@ CLAIMS = {
  'C12': ("dominance/loop-exit analysis of close-after-drain; control dependence of the reconnect broadcast; Range-callback return analysis; join-before-release (call graph of job producers); increment-before-hand-off ordering",
          "C12.R1 connections closed only after numInvoke==0; C12.R2 reconnect notification on both paths, to every connection, with the constant the client tests; C12.R3 Shutdown returns on drain or ctx expiry; C12.R4 producers joined before pool release (K4 known finding); C12.R5 requests counted in flight from the read; C09.R1 pairing",
          "all interleavings of accept/receive/handler/poller; timing"),
+ 'C13': ("lockset analysis over the selector types (lock state dataflow with helper/closure inheritance); dominating-guard positivity analysis with correlated-branch interval propagation; must-pass-through (rebuild after mutation) with helper summaries; sibling-triple agreement in the manager; structural list/map/ring consistency",
+         "C13.R1 lock discipline incl. non-thread-safe rand; C13.R2 no division/modulo/Intn/make by a possibly non-positive value; C13.R3 derived state rebuilt after every membership change; C13.R4 the three selectors updated together; C13.R5 rotation index; C13.R6 error only when empty; C13.R7 member list/map/ring consistency and ownership of the list",
+         "the weight formula, proportions and strict rotation over histories; membership after arbitrary histories"),
+ 'C14': ("effect analysis of the routing call cones (purity); structural sibling comparison of ring-key expressions (add vs remove); provenance of the hash code from the call context; control dependence of strategy dispatch; ring-lookup idiom check",
+         "C14.R1 routing cone is pure; C13.R3 ring sorted after every change; C14.R3 ring points depend only on the endpoint and Remove deletes what add inserted; C14.R4 mod-hash slot; C14.R5 hash-type dispatch and constant agreement; C14.R6 caller's code reaches the selector; C14.R7 first point >= key with wrap-around only past the end; C13.R7 list ownership",
+         "minimal disruption over all 2^32 codes; hash collisions between endpoints"),
+ 'C15': ("who-may-store analysis of the adapter status with dominating threshold guards; control dependence of probe and reinstatement; single-layer accounting check over the call cone; guard analysis of nil-adapter returns",
+         "C15.R1 blocking needs >= 2 failures; C15.R2 probe spacing >= 30 s; C15.R3 reinstatement only after a reply, failures counted at one layer; C13.R4 blocked endpoints leave all selectors; C15.R5 no `no endpoint` while the registry lists one, random fallback",
+         "everything that depends on elapsed time and outcome sequences"),
+ 'C17': ("error-propagation analysis of the XML tokenizer call (non-EOF errors must surface); return-value provenance of the typed getters incl. parse width; package-wide index/slice guard analysis with a justified-exception table; control dependence of node creation on findChild miss",
+         "C17.R1 tokenizer errors are not swallowed; C17.R2 getters fall back to the default, parse width matches the type; C17.R3 no unguarded index in package conf; C17.R4 first '=' splits, repeated domains merge, comments skipped",
+         "completeness of the representation for all documents"),
+ 'C18': ("package-wide index/slice guard analysis; field-copy provenance of composite literals; phi/edge analysis of derived fields (Proto, Istcp); interval analysis of the weight normalisation; flag table comparison",
+         "C18.R1 no string crashes Parse; C18.R2 conversions copy field by field, Proto derived consistently; C18.R3 one definition of the cache key; C18.R4 flag names/defaults, option-to-field mapping, weight normalisation set, protocol word to Istcp",
+         "flag parsing for all option orders and spacings (delegated to package flag)"),
+ 'C19': ("channel-flow analysis of the pool (received value has exactly one send / one synchronous call); loop-bound extraction (cap of the idle queue); ordering of registration and wait in the worker loop; handshake shape of release",
+         "C19.R1 linear hand-off of jobs; C19.R2 jobs run only on workers, exactly cap(WorkerQueue) workers; C19.R3 a registered worker is idle; C19.R4 release collects every worker with a handshake",
+         "exactly-once and bounded parallelism over all interleavings"),
+ 'C20': ("control dependence of the flush acknowledgement on a non-blocking emptiness observation with no blocking channel operation in between; who-may-receive and start-once analysis of the flusher; write-per-entry and send-per-call counting; call ordering before os.Exit",
+         "C20.R1 drain before acknowledging; C20.R2 single consumer started once, one undivided Write per entry; C20.R4 one enqueue per accepted log call; C20.R5 FlushLogger called directly before os.Exit and deferred in Run",
+         "the one-second timeout; the writers' own behaviour; all interleavings"),
+
 }
 
 checks = []
